@@ -2,13 +2,16 @@
 from .. import syscorr
 
 PROP = "C04"
-LEAN_TARGETS = ["Eliot.Properties.C04"]
+LEAN_TARGETS = ["Eliot.Properties.C04", "Eliot.Properties.C04Place"]
 AUDIT = "Eliot/Audit/C04.lean"
 SKELETON_TARGETS = {"Sys.C04.skeleton_E6": "Eliot.Properties.C04Skel",
                     "Sys.UuidSkel.skeleton_E11_task_uuids_are_uuid4": "Eliot.Properties.UuidSkel"}
 THEOREMS = ["Sys.C04.execS_good", "Sys.C04.execB_good", "Sys.C04.exec_restores_ctx", "Sys.C04.program_ends_contextless",
             "Sys.C04.inside_is_current", "Sys.C04.probe_in_body_sees_action", "Sys.C04.start_task_fresh",
-            "Sys.C04.contextless_msg_own_task"]
+            "Sys.C04.contextless_msg_own_task",
+            "Sys.C04.log_untyped_in_action", "Sys.C04.log_typed_in_action", "Sys.C04.child_of_current",
+            "Sys.C04.body_statement_context", "Sys.C04.block_body_world", "Sys.C04.execB_append",
+            "Sys.C04.logged_in_block_is_direct_item", "Sys.C04.started_in_block_is_child"]
 RULE = ("random programs over the full statement language of the core model (with-blocks, explicit handles with `with x:` / "
         "`x.context()` / `x.run()`, re-entry while inside, tasks, remote continuation, try/except, raises of generated exception "
         "classes incl. BaseException/GeneratorExit/KeyboardInterrupt/CancelledError subclasses, failing destinations/serializers/"
